@@ -328,12 +328,17 @@ impl rip_kernel::verif::Hooks for SchedHooks {
             None => Some(fut),
         })
     }
+    fn clock_offset(&self) -> Option<Duration> {
+        ENV.with(|e| e.borrow().as_ref().and_then(|e| e.clock_offset()))
+    }
     fn retry_sleep(&self, name: &'static str) -> bool {
+        // the actor's own clock advances by one retry interval, then the others may run
+        let has_clock = ENV.with(|e| e.borrow().as_ref().map(|e| e.on_sleep()).unwrap_or(false));
         if let Some((s, id)) = current() {
             s.yield_at(id, name, None);
             return true;
         }
-        false
+        has_clock
     }
 }
 
@@ -350,6 +355,15 @@ pub trait ActorEnv {
     }
     fn ping(&self, _endpoint: &str) -> Option<bool> {
         None
+    }
+    /// Monotonic clock of this actor (offset from a fixed base); `None` = the real clock.
+    fn clock_offset(&self) -> Option<Duration> {
+        None
+    }
+    /// A retry sleep of the code under test: advance the actor's clock. True = the env owns time
+    /// (the real sleep is skipped also outside the scheduler).
+    fn on_sleep(&self) -> bool {
+        false
     }
     /// Fault injection (environment answer "error") for the operation behind `name`.
     fn fail(&self, _name: &str) -> bool {
